@@ -136,10 +136,48 @@ pub fn try_dn_value(kind: StrKind, text: &str) -> Option<DnValue> {
 	})
 }
 
+/// Build the name. Half of the names (chosen by a hash of the content, so that every build and
+/// every process agrees) are reached through an *edit history* instead of plain pushes: a decoy
+/// attribute pushed first and removed at the end, or an attribute first pushed with another value
+/// and pushed again later (which replaces the value in place). The resulting name is the same
+/// insertion-ordered map; code that looks at stale internal state of the name sees something else.
 pub fn name_to_rcgen(n: &NameSpec) -> DistinguishedName {
 	let mut dn = DistinguishedName::new();
-	for a in n {
-		dn.push(a.ty.to_rcgen(), dn_value(a.kind, &a.text));
+	let decoy = DnType::CustomDnType(vec![2, 5, 4, 97, 1]);
+	let has_decoy = n.iter().any(|a| a.ty.to_rcgen() == decoy);
+	let distinct_types = {
+		let mut t: Vec<String> = n.iter().map(|a| format!("{:?}", a.ty)).collect();
+		t.sort();
+		t.windows(2).all(|w| w[0] != w[1])
+	};
+	let h = if has_decoy || !distinct_types { 0 } else { crate::util::fnv64(format!("{:?}", n).as_bytes()) % 4 };
+	match h {
+		2 => {
+			dn.push(decoy.clone(), DnValue::Utf8String("decoy".into()));
+			for a in n {
+				dn.push(a.ty.to_rcgen(), dn_value(a.kind, &a.text));
+			}
+			dn.remove(decoy);
+		},
+		3 => {
+			for (i, a) in n.iter().enumerate() {
+				if i == 0 {
+					dn.push(a.ty.to_rcgen(), DnValue::Utf8String("first value, replaced later".into()));
+				} else {
+					dn.push(a.ty.to_rcgen(), dn_value(a.kind, &a.text));
+				}
+			}
+			dn.push(decoy.clone(), DnValue::PrintableString(PrintableString::try_from("decoy").expect("printable")));
+			if let Some(a) = n.first() {
+				dn.push(a.ty.to_rcgen(), dn_value(a.kind, &a.text));
+			}
+			dn.remove(decoy);
+		},
+		_ => {
+			for a in n {
+				dn.push(a.ty.to_rcgen(), dn_value(a.kind, &a.text));
+			}
+		},
 	}
 	dn
 }
